@@ -48,6 +48,7 @@ CHECKS = {
   text="C07_rmslice_spec etc.: rmslice/_slice_xlat/__len__/copy are REGENERATED from testcases.py on every run by "
        "tools/translate.py, proved equal to the model (GenEq), and the model is proved to delete exactly the "
        "reducible atoms of rank [clamp a, clamp b) for all layouts and all integers a,b (induction, no bound). "
+       "Corollaries: empty range = identity on the whole object, full range = exactly the non-reducible parts, len after = len - width. "
        "Additionally model and implementation are compared on every flag layout up to length 7/9 x all index pairs.",
   note=TB + "Aliasing/object identity of copy() is outside the functional model and checked on the implementation only.",
   tech="Coq proof over a model regenerated from the Python source (translator + GenEq) + exhaustive correspondence",
